@@ -59,7 +59,11 @@ OPERANDS = ['0', '1', '2', '3', '7', '10', 'True', 'False', '0.0', '1.0', '2.0',
 OPS = ['+', '-', '*', '%', '//', '<<', '>>', '|', '&', '^', '/', '**', '@']
 NESTED = ['(1+2)*(1.0+2)', '(2*3)-(2.0*3)', '1+2+3.0', '2**3+1', '-1+2', '(1<<2)+(1.0<<2)', '[1<<2, 1.0<<2]', '1+2 if 1.0+2 else True+2', '(0*1.0)+(0*1)', '1e308*10+1', '(1-2)*3', '(1-2)-(1.0-2)',
           '10*10*10*10', '1000*1000+0.5', '(True+True)*(1+1)', '1j*1j+1', '(5%3)+(5.0%3)', '7//2+7.0//2', '(1|2)&3', '3-3.0', '0.5+0.5', '(1-4)**2', '(2-5)**2.0', '1<<14', '1<<13', '5*20', '(1-3).real', '(0-1)*0.0', '(1e308*10)-(1e308*10)', '(1e308*10)*0', '2-(3-5)',
-          '1--(1-2)', '(1+1)/(2+2)', '(1+1.0)/(2+2)', '7%(2-2)', '1<<(1-2)', "'a'*3", "'a'+'b'", "b'a'*2", "'%d'%1", "'a'*(1+2)", '(1+2)*"ab"']
+          '1--(1-2)', '(1+1)/(2+2)', '(1+1.0)/(2+2)', '7%(2-2)', '1<<(1-2)', "'a'*3", "'a'+'b'", "b'a'*2", "'%d'%1", "'a'*(1+2)", '(1+2)*"ab"',
+          # chains: folding the trailing constants of a float chain would re-associate it
+          '.1+.2+.3', '2**53+1.+1.', '1/49*7.*7.', '.1*3*3', '1e16+1+1', '(.1+.2)+.3', '.3+(.1+.2)', '1e308*10*0', '5-.1-.2',
+          # chains with a free operand `a` (evaluated for several values of a)
+          'a+.1+.2', 'a*7.*7.', 'a+1+2', '1+a+2', 'a-1-1', 'a*2*.5', '.1+a+.2', 'a+(1+2)', '(a+1)+2', 'a|1|2', 'a&6&3', '-a+1+2']
 
 
 def obj_to_ast(o):
@@ -79,11 +83,15 @@ def obj_to_ast(o):
     return node
 
 
-def outcome(expr_node):
-    """(type name, repr) of evaluating a literal-only expression tree with empty namespaces, or ('raises', exception type)."""
+FREE_VALUES = (0.3, 1 / 49.0, 2.0 ** 53, 1e16, 7, True, 0.1)
+
+
+def outcome(expr_node, env=None):
+    """(type name, repr) of evaluating a literal-only expression tree (plus, at most, the free operand `a`) with empty namespaces, or
+    ('raises', exception type)."""
     try:
         code = compile(ast.fix_missing_locations(ast.Expression(body=expr_node)), 'literal', 'eval')
-        v = eval(code, {'__builtins__': {}}, {})  # the tree consists of literals and operators generated by this checker only
+        v = eval(code, {'__builtins__': {}}, dict(env or {}))  # the tree consists of literals, operators and the operand `a`, generated by this checker only
     except Exception as e:
         return ('raises', type(e).__name__)
     try:
@@ -222,8 +230,21 @@ def enum(model, rep, rule='C07.ENUM', only_length=False, only_raises=False):
             if ast.dump(new_stmt.value) == ast.dump(orig_stmt.value):
                 continue  # left alone
             n_changed += 1
-            want = outcome(copy.deepcopy(orig_stmt.value))
-            got = outcome(pv)
+            free = {n_.id for n_ in ast.walk(orig_stmt.value) if isinstance(n_, ast.Name)}
+            if free:
+                if free != {'a'} or {n_.id for n_ in ast.walk(pv) if isinstance(n_, ast.Name)} - {'a'}:
+                    raise AnalysisError('probe %r has free names %s' % (text, sorted(free)))
+                want = got = None
+                for val in FREE_VALUES:
+                    w_, g_ = outcome(copy.deepcopy(orig_stmt.value), {'a': val}), outcome(copy.deepcopy(pv), {'a': val})
+                    if w_ != g_:
+                        want, got = ('for a=%r ' % (val,),) + w_, ('for a=%r ' % (val,),) + g_
+                        break
+                if want is None:
+                    want = got = ('same', 'for every sampled a')
+            else:
+                want = outcome(copy.deepcopy(orig_stmt.value))
+                got = outcome(pv)
             if only_length:
                 if len(ptext) >= len(otext):
                     bad.append((label, text, ptext, 'prints as %r (%d characters)' % (otext, len(otext)), 'the folded form %r is not shorter' % ptext))
